@@ -1196,6 +1196,23 @@ def extract_h2_reader(repo, parents):
               "`async with self._write_lock:`, and nothing else in `http2.py` takes from h2's buffer or writes to the stream - frames reach the",
               "wire in the order h2 produced them (the HPACK encoder state depends on it) -/",
               "def h2BufferWrittenUnderWriteLock : Bool := " + ("true" if wok and not others else "false")]
+    # every handler of `_read_incoming_data` / `_write_outgoing_data` that remembers the failure also takes the connection out of service
+    marks = True
+    nh = 0
+    for fname, attr in (("_read_incoming_data", "self._read_exception"), ("_write_outgoing_data", "self._write_exception")):
+        ff = _find_func(tree, fname, cls="AsyncHTTP2Connection")
+        for n in ast.walk(ff):
+            if isinstance(n, ast.ExceptHandler):
+                body = [ast.unparse(b) for b in n.body]
+                if any(b.startswith(attr + " = ") for b in body):
+                    nh += 1
+                    if "self._connection_error = True" not in body:
+                        marks = False
+    if nh < 2:
+        raise ExtractError("http2.py: the handlers that remember a read / write failure were not found")
+    writer += ["/-- every `except` handler of `_read_incoming_data` / `_write_outgoing_data` that stores the failure (`_read_exception`,",
+               "`_write_exception`) also sets `_connection_error = True`: a connection on which an exchange has failed is never offered again -/",
+               "def h2IoFailureMarksConnection : Bool := " + ("true" if marks else "false")]
     return writer + ["/-- `_receive_events`: `if stream_id is None or not self._events.get(stream_id):` guards `_read_incoming_data` *inside*",
             "`async with self._read_lock:`; the network is not read outside that lock -/",
             "def h2EventsRecheckedUnderReadLock : Bool := " + ("true" if ok and not reads_outside else "false")]
